@@ -15,12 +15,15 @@ ID = "C01"
 MODULES = ["Helios.Props.C01", "Helios.Props.Facts"]
 THEOREMS = ["Helios.Proxy.wire_ok", "Helios.Proxy.replay", "Helios.Proxy.replay_flushes", "Helios.Proxy.via_transparent",
             "Helios.Proxy.request_preserved", "Helios.Proxy.transLb_id", "Helios.Proxy.rec_transparent",
-            "Helios.Facts.wrappers_capable", "Helios.Facts.wrappers_known", "Helios.Facts.proxy_passthrough"]
+            "Helios.Facts.wrappers_capable", "Helios.Facts.wrappers_known", "Helios.Facts.proxy_passthrough",
+            "Helios.Facts.execute_panic_is_failure_and_propagates"]
 
 METHODS = ["GET", "GET", "GET", "POST", "POST", "PUT", "DELETE", "PATCH", "HEAD", "OPTIONS"]
 TARGETS = ["/", "/p", "/a/b/c", "/a%2Fb/c%20d", "/p?x=1&y=%26z", "/p?", "/p?a=b=c&&d", "//double//slash", "/a/../b", "/a/./b",
            "/%E2%9C%93/%00x", "/p;param=1", "/index.html?q=a+b", "/" + "s" * 300, "/p?x=" + "q" * 500, "/a%2fb", "/caf%C3%A9",
-           "/p?redirect=http://x/y", "/*", "/p/"]
+           "/p?redirect=http://x/y", "/*", "/p/",
+           # queries a form parser would reject or re-write: semicolons, a bare percent sign, a broken escape
+           "/p?q=go;lang&page=2", "/p?discount=100%&x=1", "/p?a=%zz&b=2", "/p?trace_id=abc&x=%"]
 REQ_HDRS = [[], [], [("Accept", "text/plain")], [("X-V-A", "1"), ("X-V-A", "2")], [("X-V-Empty", "")], [("X-V-Long", "v" * 900)],
             [("Accept-Encoding", "gzip")], [("Accept-Encoding", "br, gzip;q=0.5")], [("Accept-Encoding", "identity")],
             [("User-Agent", "verif/1.0")], [("Cookie", "a=1; b=2"), ("Cookie", "c=3")], [("Authorization", "Bearer zzz")],
@@ -28,7 +31,10 @@ REQ_HDRS = [[], [], [("Accept", "text/plain")], [("X-V-A", "1"), ("X-V-A", "2")]
             [("X-Request-Id", "client-id-1")], [("X-Request-Id", " ")], [("X-Trace-Id", "t-77")], [("X-Request-Id", "r1"), ("X-Trace-Id", "t1")],
             [("Range", "bytes=0-9")], [("If-None-Match", '"x"')], [("Cache-Control", "no-cache"), ("Pragma", "no-cache")],
             [("X-V-Case", "MiXeD"), ("x-v-lower", "low")], [("Content-Type", "application/json")], [("Referer", "http://e/x?y")],
-            [("Via", "1.1 other")], [("Forwarded", "for=1.2.3.4")], [("X-V-Utf", "café")]]
+            [("Via", "1.1 other")], [("Forwarded", "for=1.2.3.4")], [("X-V-Utf", "café")],
+            # a form-encoded body is a body like any other: nothing on the way may read it
+            [("Content-Type", "application/x-www-form-urlencoded")], [("Content-Type", "application/x-www-form-urlencoded")],
+            [("Content-Type", "multipart/form-data; boundary=xyz")]]
 BODY_SIZES = [0, 0, 1, 100, 4095, 4096, 4097, 32767, 32768, 32769, 70000, 100000]
 STATUSES = [200, 200, 200, 201, 202, 204, 206, 301, 302, 304, 307, 400, 401, 403, 404, 410, 418, 429, 500, 502, 503, 504]
 CTS = ["text/plain", "text/html; charset=utf-8", "application/json", "application/octet-stream", "text/event-stream", "image/png"]
@@ -108,6 +114,27 @@ def short_body_episodes(rng):
                 ops.append("fl")
             for mode in ("direct", "via"):
                 ep.append("px x %s GET /p - 0 cl %s" % (mode, ";".join(ops)))
+        ep.append("px close")
+        eps.append(ep)
+    return eps
+
+
+def form_episodes(rng):
+    """uploads whose body a form parser could consume, and queries it would re-write, with the identifier features
+    on (they look at the request) and no identifier supplied"""
+    eps = []
+    for ids in ("11", "01", "10"):
+        ep = ["px new round_robin %s - %s" % (ids, rng.choice(["-", "l", "cr"]))]
+        for method, target, ct, reqlen, framing in (
+                ("POST", "/submit", "application/x-www-form-urlencoded", 300, "cl"),
+                ("PUT", "/submit?x=1", "application/x-www-form-urlencoded", 5000, "chunked"),
+                ("PATCH", "/submit", "application/x-www-form-urlencoded; charset=utf-8", 40, "cl"),
+                ("POST", "/p?q=go;lang&page=2", "application/json", 20, "cl"),
+                ("GET", "/p?discount=100%&x=1", None, 0, "cl"),
+                ("POST", "/submit?trace_id=zz", "multipart/form-data; boundary=xyz", 800, "cl")):
+            h = [("Content-Type", ct)] if ct else []
+            for mode in ("direct", "via"):
+                ep.append("px x %s %s %s %s %d %s wh:200;w:5:1" % (mode, method, target, hdr_tok(h), reqlen, framing))
         ep.append("px close")
         eps.append(ep)
     return eps
@@ -286,6 +313,7 @@ def check(ctx):
     for i in range(n_eps):
         eps.append(gen_episode(ctx.rng, per, strategy=STRATS[i % 5]))
     eps += short_body_episodes(ctx.rng) if ctx.thorough() else short_body_episodes(ctx.rng)[:4]
+    eps += form_episodes(ctx.rng) if ctx.thorough() else form_episodes(ctx.rng)[:2]
     d.check(C.load_corpus(ID) + eps, oracle=oracle, label="wire")
     nx = sum(len(e) - 2 for e in eps) // 2
     scripts = set(l.split()[8] for e in eps for l in e if l.startswith("px x via"))
